@@ -2,7 +2,7 @@
 import random
 import time
 
-from . import common, e1, kani_runner
+from . import common, e1, kani_runner, e3_extras
 
 PID = "C09"
 OPS = [("Add", "add", 1), ("BitAnd", "bitand", 2), ("BitOr", "bitor", 3), ("BitXor", "bitxor", 4), ("Div", "div", 5),
@@ -250,8 +250,10 @@ def run(tier):
         for bl, br in ((False, False), (True, True), (False, True), (True, False)):
             for req in (["{}"], ["{}", "{}Assign"], ["{}Assign"]):
                 progs.append(build_generic("p%05d" % len(progs), op, bl, br, [r.format(op[0]) for r in req], True))
+    out = common.Outcome(PID)
+    extra = e3_extras.summary(e3_extras.c09_kernels(out))
     return e1.finish(
-        PID, tier, progs, t0,
+        PID, tier, progs, t0, outcome=out, extra=extra,
         rule="one Kani harness per (operator, base impl form, Rhs = Self | other type, requested set): operand payloads symbolic; every generated form is called; "
              "value, number/kind of clones and the single call of the user's impl are asserted; distinct by op|base|rhs|requested",
         bounds="10 operators x 4 base forms x Rhs in {Self, B} x {Op},{OpAssign},{Op,OpAssign}, base impl OpAssign<Rhs|&Rhs> with {Op}; generic G<T> with `Self` in Output "
